@@ -450,12 +450,16 @@ struct File {
 
 impl File {
     fn fallocate(&self, offset: i64, len: i64) -> Result<(), StorageError> {
+        #[cfg(all(aranya_core_verif, feature = "std"))]
+        verif_io_log::record(verif_io_log::IoOp::Fallocate { offset, len });
         libc::fallocate(&self.fd, 0, offset, len)?;
         // A full `fsync` (not `fdatasync`) so the size/extent metadata
         // dirtied by `fallocate` is durable before any data written into
         // the new region is committed; `fdatasync` may skip metadata not
         // needed to read back already-written data. This runs once per
         // `PREALLOC_CHUNK`, not per commit.
+        #[cfg(all(aranya_core_verif, feature = "std"))]
+        verif_io_log::record(verif_io_log::IoOp::Fsync);
         libc::fsync(&self.fd)?;
         Ok(())
     }
@@ -482,6 +486,11 @@ impl File {
     }
 
     fn write_all(&self, mut offset: i64, mut buf: &[u8]) -> Result<(), StorageError> {
+        #[cfg(all(aranya_core_verif, feature = "std"))]
+        verif_io_log::record(verif_io_log::IoOp::Pwrite {
+            offset,
+            bytes: buf.to_vec(),
+        });
         while !buf.is_empty() {
             match libc::pwrite(&self.fd, buf, offset) {
                 Ok(0) => {
@@ -502,6 +511,8 @@ impl File {
     }
 
     fn sync(&self) -> Result<(), StorageError> {
+        #[cfg(all(aranya_core_verif, feature = "std"))]
+        verif_io_log::record(verif_io_log::IoOp::Fdatasync);
         // `fdatasync` is sufficient for durability here: we only ever need the
         // data and the metadata required to read it back (file size, block
         // mapping), never timestamps. It avoids the extra inode-metadata journal
@@ -551,6 +562,94 @@ impl File {
             error!(?err, "load");
             StorageError::IoError
         })
+    }
+}
+
+/// Verification hook (C15, only with `--cfg aranya_core_verif` and the `std` feature): an
+/// opt-in, thread-local log of the I/O calls issued on graph files, recorded at the top of the
+/// `File` wrappers (`write_all`, `sync`, `fallocate` and the `fsync` inside it) before the call
+/// is made. Nothing here is compiled in a normal build.
+#[cfg(all(aranya_core_verif, feature = "std"))]
+pub mod verif_io_log {
+    use alloc::vec::Vec;
+    use core::cell::RefCell;
+
+    /// One I/O call about to be issued on a graph file.
+    #[derive(Clone, Debug, PartialEq, Eq)]
+    pub enum IoOp {
+        /// `File::write_all(offset, bytes)` (a `pwrite` loop).
+        Pwrite {
+            /// File offset of the first byte.
+            offset: i64,
+            /// The bytes to be written.
+            bytes: Vec<u8>,
+        },
+        /// `fdatasync` (from `File::sync`).
+        Fdatasync,
+        /// `fsync` (from `File::fallocate`).
+        Fsync,
+        /// `fallocate(fd, 0, offset, len)`.
+        Fallocate {
+            /// Start of the region.
+            offset: i64,
+            /// Length of the region.
+            len: i64,
+        },
+    }
+
+    std::thread_local! {
+        static LOG: RefCell<Option<Vec<IoOp>>> = const { RefCell::new(None) };
+    }
+
+    /// Starts (or restarts) recording on this thread with an empty log.
+    pub fn start() {
+        LOG.with(|l| *l.borrow_mut() = Some(Vec::new()));
+    }
+
+    /// Stops recording on this thread and returns what was recorded.
+    pub fn stop() -> Vec<IoOp> {
+        LOG.with(|l| l.borrow_mut().take().unwrap_or_default())
+    }
+
+    /// Number of operations recorded so far (0 when not recording).
+    pub fn len() -> usize {
+        LOG.with(|l| l.borrow().as_ref().map_or(0, Vec::len))
+    }
+
+    /// A copy of the operations recorded from index `from` on.
+    pub fn since(from: usize) -> Vec<IoOp> {
+        LOG.with(|l| {
+            l.borrow()
+                .as_ref()
+                .and_then(|v| v.get(from..))
+                .map(<[IoOp]>::to_vec)
+                .unwrap_or_default()
+        })
+    }
+
+    pub(super) fn record(op: IoOp) {
+        LOG.with(|l| {
+            if let Some(v) = l.borrow_mut().as_mut() {
+                v.push(op);
+            }
+        });
+    }
+}
+
+/// Verification shim (C15, only with `--cfg aranya_core_verif`): read-only view of the control
+/// record a [`Writer`] holds, so a harness can compare what `open` recovered with a model.
+#[cfg(aranya_core_verif)]
+impl Writer {
+    /// `(generation, heads, fact_cache, free_offset, checksum, next_root)`.
+    pub fn verif_root(&self) -> (u64, Option<u64>, Option<u64>, i64, u64, i64) {
+        (
+            self.root.generation,
+            self.root.heads,
+            self.root.fact_cache,
+            self.root.free_offset,
+            self.root.checksum,
+            self.next_root,
+        )
     }
 }
 
